@@ -345,6 +345,39 @@ func runCheat(cz *concretiser, cr *credential, c aCase, rng *mrand.Rand, res *hx
 		res.Violation("verify-panic", "ProofD verification panicked: "+msg, hx.M{"case": c})
 		return
 	}
+	// the same content in an object with a history: an honest proof of the library's prover is verified (accepted), then
+	// changed field by field into this case's proof and verified again. The verdict is a function of the content alone.
+	{
+		real := len(cr.ms) - 2
+		bms := make([]*big.Int, real)
+		for i := range bms {
+			bms[i] = big.Convert(new(gobig.Int).Set(cr.ms[i]))
+		}
+		cred := &gabi.Credential{Pk: pk, Attributes: bms, Signature: &gabi.CLSignature{
+			A: big.Convert(new(gobig.Int).Set(cr.A)), E: big.Convert(new(gobig.Int).Set(cr.e)), V: big.Convert(new(gobig.Int).Set(cr.v))}}
+		var ok3, ok4, hostOK bool
+		panicked, msg = hx.Try(func() {
+			host, herr := cred.CreateDisclosureProof(nil, nil, false, big.Convert(ctx), big.Convert(nonce))
+			if herr != nil {
+				hx.Fatal("host proof: %v", herr)
+			}
+			hostOK = host.Verify(pk, big.Convert(ctx), big.Convert(nonce), false)
+			hx.Overwrite(host, p)
+			ok3 = host.Verify(pk, big.Convert(ctx), big.Convert(nonce), false)
+			ok4 = gabi.ProofList{host}.Verify([]*gabikeys.PublicKey{pk}, big.Convert(ctx), big.Convert(nonce), false, nil)
+		})
+		res.Count(fmt.Sprintf("reused-object:agrees=%v", ok3 == ok1 && ok4 == ok2))
+		switch {
+		case panicked:
+			res.Violation("verify-panic", "verification of a ProofD object that was verified before panicked: "+msg, hx.M{"case": c})
+			return
+		case !hostOK:
+			hx.Fatal("the host proof of the object-history replay does not verify")
+		case ok3 != ok1 || ok4 != ok2:
+			res.Violation("verdict-depends-on-object-history", fmt.Sprintf("the same proof content is judged %v/%v in a fresh ProofD object but %v/%v in an object that was verified before (accepted, then overwritten field by field)", ok1, ok2, ok3, ok4), hx.M{"case": c})
+			return
+		}
+	}
 	// what C01 demands of an accepted proof, evaluated on the concrete proof with the harness' own knowledge
 	authentic, why := true, ""
 	for i, v := range p.ADisclosed {
